@@ -592,6 +592,57 @@ fn chain(obs: &mut Obs, rng: &mut Rng, b0: &[u8], fmt_k: u64, how: &dyn Fn() -> 
                     return ChainResult::Reported;
                 }
             }
+            // ... and nothing unused: PLtoTF only writes values some character (or some
+            // reachable instruction) refers to, and each kern value once
+            let mut used = [vec![false; r1.width.len()], vec![false; r1.height.len()], vec![false; r1.depth.len()], vec![false; r1.italic.len()]];
+            let mut used_ext = vec![false; r1.exten.len()];
+            for ci in &r1.char_info {
+                if ci[0] == 0 {
+                    continue;
+                }
+                for (k, i) in [(0usize, ci[0] as usize), (1, (ci[1] / 16) as usize), (2, (ci[1] % 16) as usize), (3, (ci[2] / 4) as usize)] {
+                    if let Some(u) = used[k].get_mut(i) {
+                        *u = true;
+                    }
+                }
+                if ci[2] % 4 == 3 {
+                    if let Some(u) = used_ext.get_mut(ci[3] as usize) {
+                        *u = true;
+                    }
+                }
+            }
+            let mut used_kern = vec![false; r1.kern.len()];
+            for w in &r1.lig_kern {
+                if w[0] <= 128 && w[2] >= 128 {
+                    if let Some(u) = used_kern.get_mut(256 * (w[2] as usize - 128) + w[3] as usize) {
+                        *u = true;
+                    }
+                }
+            }
+            let mut unused: Vec<String> = vec![];
+            for (k, name) in ["width", "height", "depth", "italic"].iter().enumerate() {
+                if used[k].iter().skip(1).any(|u| !u) {
+                    unused.push(name.to_string());
+                }
+            }
+            if used_kern.iter().any(|u| !u) {
+                unused.push("kern".into());
+            }
+            if used_ext.iter().any(|u| !u) {
+                unused.push("exten".into());
+            }
+            let mut ks = r1.kern.clone();
+            ks.sort_unstable();
+            if ks.windows(2).any(|w| w[0] == w[1]) {
+                unused.push("kern(duplicate)".into());
+            }
+            if let Some(first) = unused.first() {
+                obs.violation(
+                    format!("b1-not-canonical:unused-or-duplicate-entries:{first}"),
+                    witness(json!({"tables": unused, "pl1": clip(&pl1, 3000)})),
+                );
+                return ChainResult::Reported;
+            }
         }
         (Err(e), _) => {
             // our strict reader refuses b0 although TFtoPL accepted it without warning
